@@ -15,6 +15,7 @@ from . import symx
 from .symx import Sym, SInt, SBool, zt, wrap, swrap, ite
 
 VAL = z3.DeclareSort('Val')
+FLAT = [0]
 
 
 def zi(x):
@@ -156,7 +157,32 @@ class SymArr:
         return SymArr(self.buf, self.off, self.pshape, self.ranges, [self.perm[o] for o in order], root=self._r())
 
     def flatten(self):
-        raise NotImplementedError('flatten')
+        """C-order copy into a fresh 1-D array (numpy semantics: always a copy)"""
+        FLAT[0] += 1
+        src, ver = self, self.buf.version()
+        shp = [zi(x) for x in self.shape]
+        nd = self.ndim
+        junk = z3.Function('flatjunk%d' % FLAT[0], symx.isort(), VAL)
+        out = new_array('flat%d' % FLAT[0], self.size, lambda pos: junk(pos))
+
+        def fn(idx):
+            k = idx[0]
+            st = [None] * nd
+            acc = symx.ival(1)
+            for a in range(nd - 1, -1, -1):
+                st[a] = acc
+                acc = acc * shp[a]
+            mi = []
+            r = k
+            for a in range(nd):
+                if a == nd - 1:
+                    mi.append(r)
+                else:
+                    mi.append(r / st[a])
+                    r = r % st[a] if symx.BVW is None else z3.SRem(r, st[a])
+            return src.read_at(mi, ver)
+        out.buf.writes.append(Write(out, 'fn', fn=fn))
+        return out
 
     @staticmethod
     def _clip(v, n):
